@@ -438,4 +438,31 @@ BoundaryOK(e) ==
   /\ e.ccw /\ e.centre_inside
   /\ (~e.touches_pole => e.window_ok)
   /\ e.corner_dev_e12 <= 1000
+---------------------------------------------------------------------------
+(* C18: the 12-face frame *)
+
+FaceCentreOK(e) ==
+  LET raw == OriginOrder0[e.face + 1] IN
+  /\ e.lat_dev_e12 <= 1000 /\ e.lon_dev_e12 <= 1000          \* 1e-9 degrees
+  /\ e.lat_class = (IF raw = 0 THEN "north" ELSE IF raw = 11 THEN "south" ELSE IF raw % 2 = 1 THEN "upper" ELSE "lower")
+  \* ring faces sit at azimuth (longitude + 93 degrees) = 72*i, resp. 72*i + 36
+  /\ (raw \in 1..10 => e.lon_index = (IF raw % 2 = 1 THEN 2 * ((raw - 1) \div 2) ELSE 2 * ((raw - 2) \div 2) + 1))
+FaceAngleOK(e) ==
+  /\ e.dev_e12 <= 1000
+  /\ e.class = (IF Adjacent(e.f, e.g) THEN "adjacent" ELSE IF Antipode(e.f) = e.g THEN "antipodal" ELSE "far")
+NearestOK(e) ==
+  \A i \in 1..Len(e.pts) :
+    LET x == e.pts[i] IN
+      \/ x.chosen = x.best
+      \/ (x.margin_e12 <= 1000 /\ x.chosen = x.second /\ Adjacent(x.best, x.second))    \* tie on a seam
+FrameCellsShapeOK(e) == \A k \in 1..Len(e.cells) : Len(e.cells[k].verts) = 3 /\ e.cells[k].dev_ppm \in -1..1
+FrameEndOK(e, mesh) ==
+  /\ mesh.faces = 120 /\ e.ntris = 120 /\ Closed(mesh)
+  /\ Cardinality(Verts(mesh)) = 62 /\ e.nverts = 62 /\ Cardinality(mesh.edges) = 360
+ReflectedOK(e) == e.match_face \in 0..11 /\ Adjacent(e.origin, e.match_face) /\ e.dev_ppm \in -1..1
+
+---------------------------------------------------------------------------
+(* C06: frozen golden trace of the reference release *)
+GoldenGeomOK(e) == e.ok /\ e.dev_e12 <= 1000            \* centre and corners within 1e-9 degrees
+GoldenLookupOK(e) == e.ok /\ e.now = e.ref
 =============================================================================
